@@ -8,6 +8,7 @@ import (
 	"math/rand"
 	"reflect"
 	"strconv"
+	"strings"
 	"sync"
 
 	"github.com/xuperchain/xupercore/bcs/consensus/tdpos"
@@ -148,7 +149,7 @@ func newTdpos(c tdposCfg, vals []*sn.Key, withPlug bool) (*instance, error) {
 var sparseAbove = 6000
 
 type matrixStats struct {
-	calls, accepted, refusedIdle, refusedOther, refusedOutsider, refusedEmpty int64
+	calls, accepted, refusedIdle, refusedOther, refusedOutsider, refusedEmpty, lowHeight int64
 }
 
 // acceptance matrix over [from,to) ms: every candidate at both ns edges of every ms.
@@ -220,6 +221,29 @@ func acceptMatrix(r *ev.Run, kind, cfgShape string, chk func(*stubBlock) (bool, 
 				case !ok && want:
 					r.Violation(kind+"|accept|entitled-refused",
 						fmt.Sprintf("%s: block of the entitled validator #%d at ts %d ns refused: %v", cfgShape, ci, ns, err), wit)
+				}
+				if ci >= len(vals) && e == 0 && i%3 == 0 && !strings.Contains(cfgShape, "elected") && !strings.Contains(cfgShape, "edited") {
+					// the FIRST block of the chain (height 1 on the genesis block: at the height the consensus
+					// instance starts at, where the justification check is waived) must still come from an
+					// entitled producer. Judged only where the candidate was never a validator (after an
+					// election / edit the "outsider" of this matrix is a member of the initial set).
+					b2 := &stubBlock{Proposer: cand, Height: 1, ID: []byte{0xB2, byte(ci)}, PreHash: []byte{0xA0, 0}, Timestamp: ns}
+					ok2 := false
+					func() {
+						defer func() { recover() }()
+						ok2, _ = chk(b2)
+					}()
+					st.calls++
+					st.lowHeight++
+					if ok2 {
+						what := "outsider"
+						if ci > len(vals) {
+							what = "empty-proposer"
+						}
+						r.Violation(kind+"|accept|non-entitled-accepted|"+what+"|first-block-of-the-chain",
+							fmt.Sprintf("%s: block of candidate #%d (%q, never a validator) at ts %d ns for height 1 on the genesis block is accepted", cfgShape, ci, cand, ns),
+							map[string]interface{}{"config": cfgShape, "timestamp_ns": ns, "height": 1, "candidate": cand})
+					}
 				}
 				if ok {
 					nAcc++
@@ -348,6 +372,7 @@ func runTdpos(r *ev.Run) {
 			tot.refusedOther += st.refusedOther
 			tot.refusedOutsider += st.refusedOutsider
 			tot.refusedEmpty += st.refusedEmpty
+			tot.lowHeight += st.lowHeight
 			mu.Unlock()
 			r.Count("tdpos.accept.configs", 1)
 		}()
@@ -359,6 +384,7 @@ func runTdpos(r *ev.Run) {
 	r.Count("tdpos.accept.refused.other-validator", int(tot.refusedOther))
 	r.Count("tdpos.accept.refused.outsider", int(tot.refusedOutsider))
 	r.Count("tdpos.accept.refused.empty-proposer", int(tot.refusedEmpty))
+	r.Count("tdpos.accept.first-block-probes", int(tot.lowHeight))
 }
 
 // runTdposElected: a ledger holding one block per slot of term 1 (initial validators) and of the
